@@ -8,6 +8,18 @@ VERIF = os.path.dirname(os.path.dirname(os.path.abspath(__file__)))
 TRUST = "Trusted: the strict observer (public accessors only), the reference model written from the property text, CPython; bounded pools and history lengths (see DESIGN.md section 3)."
 
 CHECKS = {
+    "C01": dict(
+        technique="deterministic simulation: seeded construction/namespace histories, strict URI-level round-trip oracle through the baseline stream layer with swarm-randomised json.dump options, hash seeds, clock jumps and cache resets between write and read",
+        text="Seeded histories over all 18 record kinds, argument masks, identified/anonymous relations, repeated identifiers, bundles (created, attached, updated), interleaved namespace declarations with clashing prefixes and defaults at both levels, every value kind; at random points and at the end the document is written as PROV-JSON (indent/sort_keys/ensure_ascii drawn per export, to a returned string / text stream / binary stream) and read back (content str / bytes / text stream / binary stream), optionally with a simulated clock jump and a cache reset in between; the strict observer demands identical multisets of (type, identifier URI, attribute URI, kind-aware value) per container and identical bundle identifier URIs. Evidence, not proof.",
+        note=TRUST,
+        ref="DESIGN.md section 4, C01",
+    ),
+    "C02": dict(
+        technique="deterministic simulation: as C01 for PROV-XML with force_types in {False, True} and an eligibility predicate evaluated on strict snapshots",
+        text="As C01 for PROV-XML, both values of force_types, with bundles declaring their own prefixes and default namespaces, empty strings and default-namespace attribute names weighted up; states outside the quantifier (attribute local names that are not NCNames, non-XML characters, non-string prov:label, xsd:QName literals) are recognised by a predicate on the snapshot and not judged. Evidence, not proof.",
+        note=TRUST,
+        ref="DESIGN.md section 4, C02",
+    ),
     "C03": dict(
         technique="deterministic simulation: seeded namespace-operation histories, per-step history invariants (a)(b)(c) with re-resolution of every name ever handed out",
         text="Seeded exploration of interleavings of add_namespace / set_default_namespace / valid_qualified_name / record creation / update / add_bundle on documents and bundles (created by bundle() or free-standing and attached later), with clashing prefixes, equal URIs under different prefixes, generated-looking and reserved prefixes, URIs that are prefixes of each other. After every step and for every live container: resolved names keep their URI, the observable prefix table and default are monotone, add_namespace's returned prefix is bound to the requested URI, prov/xsd/xsi never move, and every name the container ever handed out re-resolves to the same URI. Evidence over explored histories, not proof.",
